@@ -253,3 +253,49 @@ End Item.
 Definition nonempty_requests (ev : list event) : bool := negb (Nat.eqb (count_requests ev) 0).
 Definition visits_with_requests (evs : list (list event)) : nat := List.length (List.filter nonempty_requests evs).
 Definition total_requests (evs : list (list event)) : nat := fold_right (fun ev n => (count_requests ev + n)%nat) 0%nat evs.
+
+(* ------------------------------------------------- a crawl over a finite set of rows *)
+(* The rows of the URLs of a finite site (a row that is discovered later is a row that is simply
+   not scheduled earlier).  The scheduler is arbitrary: a schedule names, step by step, which row
+   the item source hands out and the environment (robots, server) that visit meets; naming a row
+   that is not checked out (done / skipped) is a no-op, as URLItemSource.get_item never returns it. *)
+Record crow := { cr_url : vstr; cr_consult : Z -> vstr -> bool -> bool; cr_item : item }.
+
+Section Crawl.
+  Variable urljoin : vstr -> vstr -> option vstr.
+  Variable parseable : vstr -> bool.
+  Variable cfg : config.
+
+  Fixpoint visit_nth (k : nat) (env : (vstr -> robots_result) * (list req -> sresp)) (rows : list crow)
+    : list crow * list event :=
+    match rows with
+    | [] => ([], [])
+    | r :: rows' =>
+        match k with
+        | O => let (i', ev) := visit_item urljoin parseable cfg (cr_consult r) (cr_url r) env (cr_item r) in
+               ({| cr_url := cr_url r; cr_consult := cr_consult r; cr_item := i' |} :: rows', ev)
+        | S k' => let (rows'', ev) := visit_nth k' env rows' in (r :: rows'', ev)
+        end
+    end.
+
+  Definition row_active (k : nat) (rows : list crow) : bool :=
+    match nth_error rows k with Some r => checked_out (cr_item r) | None => false end.
+
+  (* run a schedule; returns the rows, the traces, and how many steps really visited a row *)
+  Fixpoint crawl (sched : list (nat * ((vstr -> robots_result) * (list req -> sresp)))) (rows : list crow)
+    : list crow * list (list event) * nat :=
+    match sched with
+    | [] => (rows, [], O)
+    | (k, env) :: sched' =>
+        let act := row_active k rows in
+        let (rows1, ev) := visit_nth k env rows in
+        let '(rows2, evs, n) := crawl sched' rows1 in
+        (rows2, ev :: evs, if act then S n else n)
+    end.
+End Crawl.
+
+(* visits a row may still get: try_count up to the limit, plus the one that skips it *)
+Definition row_budget (tries : Z) (r : crow) : nat :=
+  if checked_out (cr_item r) then S (Z.to_nat (tries - it_tries (cr_item r))) else O.
+Definition crawl_budget (tries : Z) (rows : list crow) : nat :=
+  fold_right (fun r n => (row_budget tries r + n)%nat) O rows.
